@@ -204,6 +204,7 @@ def typed_obligations(q):
         if q and not quick:
             continue
         L.append(ob("tencoder/k%d/v%d/i%d/esc%d/r%d/%s" % (kind, var, ind, esc, reset, t), "v1", "VerifC09TEncoder", [kind, var, t, ind, esc, reset], covers=[], **kw))
+    L.append(ob("ptrmethods/positions", "v1", "VerifC09PointerMethods", [], covers=["compared"]))
     # three further recorded differences (regions stated in the harness), everything around them must agree
     for kind, t in ((0, '{"nul?":1}'), (0, '{"?ull":1}'), (1, '{"?o?":1}'), (2, '"???"')) + (() if q else ((0, '{"n?l?":1}'), (1, '{"f??":1}'))):
         L.append(ob("diff/kind=%d/%s" % (kind, t.replace('"', '')), "v1", "VerifC09Diff", [kind, t]))
